@@ -283,6 +283,233 @@ theorem surface_point_roundtrip (E : Ellipsoid ℝ) (hf1 : E.f < 1)
       = k * (1 - E.f) := by rw [hrad, Real.sqrt_sq (by positivity)]
   apply V3.ext' <;> simp only [llh2trsCS, trig_sqrt, hs, Ellipsoid.b] <;> field_simp <;> ring
 
+/-! ## the sphere: exact at every height -/
+
+/-- **the sphere (f = 0): the one-step scheme is exact at every height** — for every point off the axis
+(`p > 0`, any `|z| ≥ 0`) the tangent of the latitude is `|z| / p` (geocentric = geodetic latitude), and the
+height formula gives exactly the distance from the centre minus the radius -/
+theorem halley_exact_on_sphere (E : Ellipsoid ℝ) (ha : 0 < E.a) (hf : E.fInv = none)
+    (p z : ℝ) (hp : 0 < p) (hz : 0 ≤ z) :
+    let sc := halley E p z
+    sc.1 * p = sc.2 * z ∧ 0 < sc.2 ∧
+      halleyHeight E p z sc.1 sc.2 = Real.sqrt (p * p + z * z) - E.a := by
+  intro sc
+  have ha0 : E.a ≠ 0 := ha.ne'
+  have hf0 : E.f = 0 := by simp [Ellipsoid.f, hf]
+  have he2 : E.e2 = 0 := by
+    simp only [Ellipsoid.e2, Ellipsoid.b, hf0]; field_simp; ring
+  set s0 := z / E.a with hs0
+  set pn := p / E.a with hpn
+  have hpn0 : 0 < pn := div_pos hp ha
+  have hs00 : 0 ≤ s0 := div_nonneg hz ha.le
+  set r := Real.sqrt (pn * pn + s0 * s0) with hr
+  have hrpos : 0 < r := Real.sqrt_pos.2 (by positivity)
+  have hr2 : r * r = pn * pn + s0 * s0 := Real.mul_self_sqrt (by positivity)
+  have hs1 : sc.1 = s0 * pn * r ^ 6 := by
+    simp only [sc, halley, trig_sqrt, cube, he2]
+    rw [show (1 : ℝ) - 0 = 1 by ring, Real.sqrt_one]
+    simp only [one_mul, ← hs0, ← hpn, ← hr]
+    ring
+  have hcc : sc.2 = pn * pn * r ^ 6 := by
+    simp only [sc, halley, trig_sqrt, cube, he2]
+    rw [show (1 : ℝ) - 0 = 1 by ring, Real.sqrt_one]
+    simp only [one_mul, ← hs0, ← hpn, ← hr]
+    ring
+  have hpa : p = E.a * pn := by rw [hpn]; field_simp
+  have hza : z = E.a * s0 := by rw [hs0]; field_simp
+  refine ⟨?_, ?_, ?_⟩
+  · rw [hs1, hcc, hpa, hza]; ring
+  · rw [hcc]; positivity
+  · simp only [halleyHeight, trig_sqrt, hs1, hcc, he2]
+    have h1 : (1 - 0) * (s0 * pn * r ^ 6 * (s0 * pn * r ^ 6)) + pn * pn * r ^ 6 * (pn * pn * r ^ 6) = (pn * r ^ 7) ^ 2 := by
+      have : r ^ 14 = r ^ 12 * (r * r) := by ring
+      calc _ = pn ^ 2 * r ^ 12 * (pn * pn + s0 * s0) := by ring
+        _ = pn ^ 2 * r ^ 12 * (r * r) := by rw [hr2]
+        _ = _ := by ring
+    have h2 : s0 * pn * r ^ 6 * (s0 * pn * r ^ 6) + pn * pn * r ^ 6 * (pn * pn * r ^ 6) = (pn * r ^ 7) ^ 2 := by
+      rw [← h1]; ring
+    rw [h1, h2, Real.sqrt_sq (by positivity)]
+    have hdist : Real.sqrt (p * p + z * z) = E.a * r := by
+      have h3 : p * p + z * z = (E.a * r) ^ 2 := by
+        rw [hpa, hza]
+        calc _ = E.a ^ 2 * (pn * pn + s0 * s0) := by ring
+          _ = E.a ^ 2 * (r * r) := by rw [hr2]
+          _ = _ := by ring
+      rw [h3]
+      exact Real.sqrt_sq (by positivity)
+    rw [hdist]
+    have hne : pn * r ^ 7 ≠ 0 := by positivity
+    rw [div_eq_iff hne]
+    have h4 : p * (pn * pn * r ^ 6) + z * (s0 * pn * r ^ 6) = E.a * pn * r ^ 6 * (r * r) := by
+      rw [hpa, hza, hr2]; ring
+    rw [h4]; ring
+
+/-- **the sphere: the full round trip is the identity at every height** (over the reals): for every point off the
+polar axis beyond the pole-branch threshold, `llh2trs (trs2llh v) = v` -/
+theorem sphere_roundtrip (E : Ellipsoid ℝ) (ha : 0 < E.a) (hf : E.fInv = none) (v : V3 ℝ)
+    (hoff : ¬ v.x * v.x + v.y * v.y ≤ E.a * E.a * 1e-32) :
+    llh2trs E (trs2llh E v) = v := by
+  have hf0 : E.f = 0 := by simp [Ellipsoid.f, hf]
+  have hp2 : 0 < v.x * v.x + v.y * v.y := by
+    have : (0:ℝ) ≤ E.a * E.a * 1e-32 := by positivity
+    linarith [not_le.1 hoff]
+  set p := Real.sqrt (v.x * v.x + v.y * v.y) with hpd
+  have hp : 0 < p := Real.sqrt_pos.2 hp2
+  have hpp : p * p = v.x * v.x + v.y * v.y := Real.mul_self_sqrt hp2.le
+  have hz : 0 ≤ absOf v.z := by unfold absOf; split <;> linarith
+  obtain ⟨h1, h2, h3⟩ := halley_exact_on_sphere E ha hf p (absOf v.z) hp hz
+  set sc := halley E p (absOf v.z) with hsc
+  set ρ := Real.sqrt (p * p + absOf v.z * absOf v.z) with hρ
+  have hρpos : 0 < ρ := Real.sqrt_pos.2 (by positivity)
+  have hρρ : ρ * ρ = p * p + absOf v.z * absOf v.z := Real.mul_self_sqrt (by positivity)
+  have ht : sc.1 / sc.2 = absOf v.z / p := by
+    rw [div_eq_div_iff h2.ne' hp.ne']; linarith
+  -- cos / sin of the latitude
+  have h1t : Real.sqrt (1 + (absOf v.z / p) ^ 2) = ρ / p := by
+    rw [show 1 + (absOf v.z / p) ^ 2 = (ρ / p) ^ 2 by
+      rw [div_pow, div_pow, pow_two ρ, hρρ]; field_simp]
+    exact Real.sqrt_sq (by positivity)
+  have hcos0 : Real.cos (Real.arctan (absOf v.z / p)) = p / ρ := by
+    rw [Real.cos_arctan, h1t]; field_simp
+  have hsin0 : Real.sin (Real.arctan (absOf v.z / p)) = absOf v.z / ρ := by
+    rw [Real.sin_arctan, h1t]; field_simp
+  have hcases : (v.z < 0 ∧ absOf v.z = -v.z ∧ signOf v.z = -1) ∨ (0 < v.z ∧ absOf v.z = v.z ∧ signOf v.z = 1) ∨
+      (v.z = 0 ∧ absOf v.z = 0 ∧ signOf v.z = 0) := by
+    unfold absOf signOf
+    by_cases hn : v.z < 0
+    · left; simp [hn]
+    · by_cases hpz : 0 < v.z
+      · right; left; simp [hn, hpz]
+      · right; right
+        have : v.z = 0 := le_antisymm (not_lt.1 hpz) (not_lt.1 hn)
+        simp [this]
+  have hcl : Real.cos (Real.arctan (absOf v.z / p) * signOf v.z) = p / ρ := by
+    rcases hcases with ⟨_, _, hs⟩ | ⟨_, _, hs⟩ | ⟨_, ha0, hs⟩
+    · rw [hs, mul_neg, mul_one, Real.cos_neg, hcos0]
+    · rw [hs, mul_one, hcos0]
+    · rw [hs, mul_zero, Real.cos_zero]
+      have : ρ = p := by rw [hρ, ha0]; simp [Real.sqrt_mul_self hp.le]
+      rw [this]; field_simp
+  have hsl : Real.sin (Real.arctan (absOf v.z / p) * signOf v.z) = v.z / ρ := by
+    rcases hcases with ⟨_, ha1, hs⟩ | ⟨_, ha1, hs⟩ | ⟨hz0, _, hs⟩
+    · rw [hs, mul_neg, mul_one, Real.sin_neg, hsin0, ha1]; ring
+    · rw [hs, mul_one, hsin0, ha1]
+    · rw [hs, mul_zero, Real.sin_zero, hz0, zero_div]
+  -- cos / sin of the longitude
+  have hne : (⟨v.x, v.y⟩ : ℂ) ≠ 0 := by
+    intro h; have := congrArg Complex.normSq h
+    simp [Complex.normSq_mk] at this; linarith
+  have habs : ‖(⟨v.x, v.y⟩ : ℂ)‖ = p := by
+    rw [Complex.norm_def, Complex.normSq_mk]
+  have hco : Real.cos (Complex.arg ⟨v.x, v.y⟩) = v.x / p := by
+    rw [Complex.cos_arg hne, habs]
+  have hso : Real.sin (Complex.arg ⟨v.x, v.y⟩) = v.y / p := by
+    rw [Complex.sin_arg, habs]
+  -- assemble
+  have hlat : (trs2llh E v).lat = Real.arctan (absOf v.z / p) * signOf v.z := by
+    simp only [trs2llh, latHeightOf, hoff, if_false, trig_atan, trig_sqrt, ← hpd, ← hsc, ht]
+  have hlon : (trs2llh E v).lon = Complex.arg ⟨v.x, v.y⟩ := by
+    simp only [trs2llh, trig_atan2]
+  have hh : (trs2llh E v).h = ρ - E.a := by
+    simp only [trs2llh, latHeightOf, hoff, if_false, trig_sqrt, ← hpd, ← hsc, h3]
+  have hsq : Real.sqrt (p / ρ * (p / ρ) + (1 - 0) * (1 - 0) * (v.z / ρ * (v.z / ρ))) = 1 := by
+    have hzz : v.z * v.z = absOf v.z * absOf v.z := by
+      unfold absOf; split <;> ring
+    rw [show p / ρ * (p / ρ) + (1 - 0) * (1 - 0) * (v.z / ρ * (v.z / ρ)) = 1 by
+      field_simp; rw [pow_two ρ, hρρ, ← hzz]; ring]
+    exact Real.sqrt_one
+  apply V3.ext' <;>
+    simp only [llh2trs, llh2trsCS, trig_cos, trig_sin, trig_sqrt, hlat, hlon, hh, hcl, hsl, hco, hso, hf0, hsq] <;>
+    field_simp <;> ring
+
+/-- **on the ellipsoid surface the full round trip is the identity** (over the reals, every ellipsoid with `a > 0`,
+`f < 1`): for every point of the ellipsoid off the pole branch, `llh2trs (trs2llh v) = v` -/
+theorem surface_roundtrip (E : Ellipsoid ℝ) (ha : 0 < E.a) (hf1 : E.f < 1) (v : V3 ℝ)
+    (hon : (v.x * v.x + v.y * v.y) / (E.a * E.a) + (v.z * v.z) / (E.b * E.b) = 1)
+    (hoff : ¬ v.x * v.x + v.y * v.y ≤ E.a * E.a * 1e-32) :
+    llh2trs E (trs2llh E v) = v := by
+  have hq : 0 < 1 - E.f := by linarith
+  have hb : 0 < E.b := by unfold Ellipsoid.b; positivity
+  have hp2 : 0 < v.x * v.x + v.y * v.y := by
+    have : (0:ℝ) ≤ E.a * E.a * 1e-32 := by positivity
+    linarith [not_le.1 hoff]
+  set p := Real.sqrt (v.x * v.x + v.y * v.y) with hpd
+  have hp : 0 < p := Real.sqrt_pos.2 hp2
+  have hpp : p * p = v.x * v.x + v.y * v.y := Real.mul_self_sqrt hp2.le
+  -- reduced-latitude parametrisation of the point
+  set C := p / E.a with hC
+  set S := absOf v.z / E.b with hS
+  set S' := v.z / E.b with hS'
+  clear_value C S S'
+  have hCpos : 0 < C := by rw [hC]; exact div_pos hp ha
+  have hzz : absOf v.z * absOf v.z = v.z * v.z := by unfold absOf; split <;> ring
+  have hCS : C ^ 2 + S ^ 2 = 1 := by
+    rw [hC, hS, div_pow, div_pow, pow_two p, hpp, pow_two (absOf v.z), hzz, pow_two, pow_two]; exact hon
+  have hCS' : C ^ 2 + S' ^ 2 = 1 := by
+    rw [hC, hS', div_pow, div_pow, pow_two p, hpp, pow_two, pow_two, pow_two]; exact hon
+  have hpa : p = E.a * C := by rw [hC]; field_simp
+  have hza : absOf v.z = E.b * S := by rw [hS]; field_simp
+  obtain ⟨h1, h2, h3⟩ := halley_exact_on_surface E ha hf1 C S hCS hCpos
+  rw [← hpa, ← hza] at h1 h2 h3
+  set sc := halley E p (absOf v.z) with hsc
+  set q := 1 - E.f with hqd
+  have hqC : 0 < q * C := by positivity
+  have ht : sc.1 / sc.2 = S / (q * C) := by
+    rw [div_eq_div_iff h2.ne' hqC.ne']; linarith
+  set D := Real.sqrt ((q * C) ^ 2 + S ^ 2) with hD
+  have hDpos : 0 < D := Real.sqrt_pos.2 (by positivity)
+  have hDD : D * D = (q * C) ^ 2 + S ^ 2 := Real.mul_self_sqrt (by positivity)
+  have h1t : Real.sqrt (1 + (S / (q * C)) ^ 2) = D / (q * C) := by
+    rw [show 1 + (S / (q * C)) ^ 2 = (D / (q * C)) ^ 2 by
+      rw [div_pow, div_pow, pow_two D, hDD]; field_simp]
+    exact Real.sqrt_sq (by positivity)
+  have hcos0 : Real.cos (Real.arctan (S / (q * C))) = (1 / D) * (q * C) := by
+    rw [Real.cos_arctan, h1t]; field_simp
+  have hsin0 : Real.sin (Real.arctan (S / (q * C))) = (1 / D) * S := by
+    rw [Real.sin_arctan, h1t]; field_simp
+  have hcases : (absOf v.z = -v.z ∧ signOf v.z = -1) ∨ (absOf v.z = v.z ∧ signOf v.z = 1) ∨
+      (v.z = 0 ∧ absOf v.z = 0 ∧ signOf v.z = 0) := by
+    unfold absOf signOf
+    by_cases hn : v.z < 0
+    · left; simp [hn]
+    · by_cases hpz : 0 < v.z
+      · right; left; simp [hn, hpz]
+      · right; right
+        have : v.z = 0 := le_antisymm (not_lt.1 hpz) (not_lt.1 hn)
+        simp [this]
+  have hcl : Real.cos (Real.arctan (S / (q * C)) * signOf v.z) = (1 / D) * (q * C) := by
+    rcases hcases with ⟨_, hs⟩ | ⟨_, hs⟩ | ⟨_, ha0, hs⟩
+    · rw [hs, mul_neg, mul_one, Real.cos_neg, hcos0]
+    · rw [hs, mul_one, hcos0]
+    · have hS0 : S = 0 := by rw [hS, ha0, zero_div]
+      rw [hs, mul_zero, Real.cos_zero]
+      have : D = q * C := by rw [hD, hS0]; simp [Real.sqrt_sq hqC.le]
+      rw [this]; field_simp
+  have hsl : Real.sin (Real.arctan (S / (q * C)) * signOf v.z) = (1 / D) * S' := by
+    rcases hcases with ⟨ha1, hs⟩ | ⟨ha1, hs⟩ | ⟨hz0, _, hs⟩
+    · rw [hs, mul_neg, mul_one, Real.sin_neg, hsin0, hS, hS', ha1]; ring
+    · rw [hs, mul_one, hsin0, hS, hS', ha1]
+    · rw [hs, mul_zero, Real.sin_zero, hS', hz0, zero_div, mul_zero]
+  have hne : (⟨v.x, v.y⟩ : ℂ) ≠ 0 := by
+    intro h; have := congrArg Complex.normSq h
+    simp [Complex.normSq_mk] at this; linarith
+  have habs : ‖(⟨v.x, v.y⟩ : ℂ)‖ = p := by rw [Complex.norm_def, Complex.normSq_mk]
+  have hco : Real.cos (Complex.arg ⟨v.x, v.y⟩) = v.x / p := by rw [Complex.cos_arg hne, habs]
+  have hso : Real.sin (Complex.arg ⟨v.x, v.y⟩) = v.y / p := by rw [Complex.sin_arg, habs]
+  have hlat : (trs2llh E v).lat = Real.arctan (S / (q * C)) * signOf v.z := by
+    simp only [trs2llh, latHeightOf, hoff, if_false, trig_atan, trig_sqrt, ← hpd, ← hsc, ht]
+  have hlon : (trs2llh E v).lon = Complex.arg ⟨v.x, v.y⟩ := by simp only [trs2llh, trig_atan2]
+  have hh : (trs2llh E v).h = 0 := by
+    simp only [trs2llh, latHeightOf, hoff, if_false, trig_sqrt, ← hpd, ← hsc, h3]
+  have key := surface_point_roundtrip E hf1 C S' (1 / D) (v.x / p) (v.y / p) hCS' (by positivity)
+  simp only [llh2trs, trig_cos, trig_sin, hlat, hlon, hh, hcl, hsl, hco, hso]
+  rw [← hqd] at key
+  rw [key]
+  apply V3.ext' <;> simp only [hC, hS'] <;> field_simp
+
+/-- the registered table does contain such an ellipsoid (the hypotheses are satisfiable on the regenerated data) -/
+example : ∃ e ∈ Midgard.Generated.Ellipsoids.table, e.2.fInv = none ∧ 0 < e.2.a := by decide +kernel
+
 end Surface
 
 /-! ## the ellipsoid attribute flow -/
@@ -458,3 +685,6 @@ end Midgard.Props.C05
 #print axioms Midgard.Props.C05.source_ellipsoid_parameters
 #print axioms Midgard.Props.C05.source_llh2trs
 #print axioms Midgard.Props.C05.source_trs2llh
+#print axioms Midgard.Props.C05.halley_exact_on_sphere
+#print axioms Midgard.Props.C05.sphere_roundtrip
+#print axioms Midgard.Props.C05.surface_roundtrip
